@@ -79,7 +79,7 @@ func init() {
 	})
 	prop(&PropDef{
 		ID:    "C08",
-		Rules: []string{"LOG-1", "LOG-2", "LOG-3", "LOG-4", "TAB-6", "ATOM-1", "ATOM-2", "OWN-2", "LOCK-3", "PUB-1"},
+		Rules: []string{"LOG-1", "LOG-2", "LOG-3", "LOG-4", "MOD-1", "TAB-6", "ATOM-1", "ATOM-2", "OWN-2", "LOCK-3", "PUB-1"},
 		Explanation: "The change log as a pairing discipline: each successful collection mutation in the Transaction helpers is followed on every success path by an append of the matching event kind for the documents of the matching result list, with the error propagated, into the oplog clone that is published together with the data; only those helpers may mutate documents; failed/no-op writes store nothing (ATOM); update events pair a document with its own change record; retention removes List[0] of a cloned oplog only; the timestamp generator state is mutex-protected; event kinds written and read agree.",
 		Decided:     []string{"append after every mutation kind, placement and error propagation", "who may mutate", "prefix-only retention on a clone, run before store/publish", "Modified/Changes lock-step", "op strings"},
 		NotDecided:  []string{"replay equivalence on concrete histories", "content of updateDescription", "retention arithmetic (min/max size and age)", "numeric monotonicity of ids"},
@@ -87,7 +87,7 @@ func init() {
 	})
 	prop(&PropDef{
 		ID:    "C09",
-		Rules: []string{"SIG-1", "SIG-2", "LOCK-1", "LOCK-2", "LOCK-3", "TAB-6", "PUB-1"},
+		Rules: []string{"SIG-1", "SIG-2", "LOCK-1", "LOCK-2", "LOCK-3", "TAB-6", "PUB-1", "SEM-6"},
 		Explanation: "The wake-up and close protocol of change streams: buffered signal channel, all sends non-blocking and after publication, registration in the critical section that reads the start position, blocking wait on signal and ctx with the stream lock released, close(signal) only under Stream.mutex guarded by !closed after tomb.Kill outside Engine.mutex, every Stream path that sets closed also unregisters; no lock-order cycle and no blocking under locks among Engine/Stream; invalidate triggers read the event kinds that are written.",
 		Decided:     []string{"no lost wake-up by construction (buffer + send-after-publish + register-with-position)", "no send on / double close of a closed channel", "no deadlock between stream and engine locks"},
 		NotDecided:  []string{"exactly-once, in-order delivery and resume positions over a history", "lost-position detection arithmetic", "timing"},
@@ -103,7 +103,7 @@ func init() {
 	})
 	prop(&PropDef{
 		ID:    "C11",
-		Rules: []string{"TAB-2", "TAB-5", "ATOM-3", "NUM-3", "LOG-4", "OWN-4u"},
+		Rules: []string{"TAB-2", "TAB-5", "ATOM-3", "NUM-3", "LOG-4", "OWN-4u", "MOD-1", "UPD-1"},
 		Explanation: "Structural parts of update semantics: all 15 operators are registered and assert the context type their only Process site supplies; bsonkit.Add/Mul return the promoted static type for each of the 16 type pairs; an update is rejected as a whole (apply errors and the _id check dominate every index/Documents mutation); updates are applied to clones; modified-count filtering keeps documents and change records in lock step. Integer overflow (NUM-3) is a recorded known finding. What each operator computes on each document and idempotence are NOT decided.",
 		Decided:     []string{"operator wiring", "numeric promotion table (32 cases)", "reject-as-a-whole ordering", "apply-on-clone"},
 		NotDecided:  []string{"operator results ($push modifiers, $pull conditions, positional paths)", "idempotence laws", "field order preservation"},
@@ -111,7 +111,7 @@ func init() {
 	})
 	prop(&PropDef{
 		ID:    "C12",
-		Rules: []string{"TAB-1", "SEM-2", "SEM-3", "SEM-5"},
+		Rules: []string{"TAB-1", "SEM-2", "SEM-3", "SEM-5", "SEM-7"},
 		Explanation: "Finite tables behind the BSON order: the Class constants increase in MongoDB's comparison order and Compare orders differing classes by them; Inspect/cloneValue/Compare are exhaustive over the type universe and each comparator asserts exactly its class's types; the leaf comparators (int32, int64, float64 with NaN, bool, date) are correct sign functions on every ordering, hence antisymmetric; every mixed numeric case of compareNumbers is oriented left-vs-right. Non-finite/inexact decimal conversions are a recorded known finding (SEM-5). Transitivity across mixed numeric magnitudes and the recursion over documents/arrays are NOT decided.",
 		Decided:     []string{"class order and exhaustiveness", "leaf comparator tables (incl. NaN lowest)", "orientation of all 16 numeric pairs"},
 		NotDecided:  []string{"transitivity over int64/double/decimal128 values around 2^53 and 2^63", "document/array recursion", "constants inside compareInt64ToFloat64"},
@@ -127,7 +127,7 @@ func init() {
 	})
 	prop(&PropDef{
 		ID:    "C14",
-		Rules: []string{"OWN-4p", "TAB-2", "NUM-2s"},
+		Rules: []string{"OWN-4p", "TAB-2", "NUM-2s", "PROJ-1"},
 		Explanation: "The non-interference clause of projections - projecting never alters the stored document - decided by the sharing analysis: every in-place mutation reachable from mongokit.Project works on containers that are fresh (Project clones its input first, so nested inclusions and operator overlays cannot write through to the original); the projection operators are registered and assert the state type Project supplies; the integer arithmetic of $slice windows cannot overflow before it is clamped. Which fields an inclusion/exclusion returns is NOT decided.",
 		Decided:     []string{"Project/ProjectList never write into their input", "projection registry", "$slice bounds arithmetic"},
 		NotDecided:  []string{"which paths are returned", "$elemMatch selection", "values of the window"},
